@@ -88,7 +88,12 @@ func (sc *regScnC14f) dump() string {
 		}
 		cache = append(cache, x)
 	}
-	sort.Strings(cache)
+	sort.Slice(cache, func(i, j int) bool {
+		if len(cache[i]) != len(cache[j]) {
+			return len(cache[i]) < len(cache[j])
+		}
+		return cache[i] < cache[j]
+	})
 	for e := ss.lru.Front(); e != nil; e = e.Next() {
 		lru = append(lru, sc.idxOf(e.Value.(*Session)))
 	}
